@@ -383,3 +383,82 @@ EXPLANATION += (" Border points: (i) with a neighbour's label equal to the noise
                 "Cover-tree construction as in C04: points on the cover radius stay in the near set, covering radii come from measured "
                 "distances, duplicate leaves keep their own index.")
 TECHNIQUE += "; constant-propagated reachability (gate) rules"
+
+
+# ------------------------------------------------------------------ predict: a row with no training point within eps is noise
+_run_pre_empty = run
+
+
+def empty_neighbourhood_is_noise(ck, prog):
+    """'noise when there are none': with an empty neighbour list every slot of the vote table is zero. The arg-max helper
+    resolves ties to the first (or last) index; the prediction is noise only if that index is the noise slot, or if an
+    explicit emptiness test of the neighbour list leads to the noise value. Decided from: the tie class of the arg-max
+    helper (which comparison replaces the running maximum), the slot the noise votes are counted in, and the gates on
+    is_empty()/len() of the radius query's result."""
+    from sa.siblings import argmax_tie_class
+    from sa.match import dim_of
+    rule, inst = "E1-gate", "predict: an empty neighbourhood yields the noise label"
+    try:
+        b = prog.one(PRED)
+    except AnchorError as e:
+        ck.violation(rule, inst, PRED, "", expected="anchor exists", found=f"anchor vanished: {e}")
+        return
+    cx = BodyCtx.of(b)
+    res = cx.res
+    am = [(bb, t) for bb, t in b.calls() if t.get("f") and t["f"]["name"] in ("which_max", "argmax")]
+    if len(am) != 1:
+        ck.note(f"{inst}: {len(am)} arg-max helper calls in DBSCAN::predict (vote resolved differently): no instance")
+        return
+    abb, at = am[0]
+    cal = prog.bodies.get(at["f"].get("resolved") or "") or prog.bodies.get(at["f"]["path"])
+    tie = argmax_tie_class(prog, cal) if cal is not None else None
+    # (a) explicit emptiness gate: a test of len(N) / is_empty(N) one side of which reaches a result store without the arg-max
+    gated = False
+    sets = [bb for bb, t in b.calls() if t.get("f") and t["f"]["path"].endswith("BaseMatrix::set")]
+    be = guards.back_edges(b)
+    for c in cx.cmps:
+        for (L, R) in ((c.lhs, c.rhs), (c.rhs, c.lhs)):
+            dl = dim_of(L)
+            if dl and dl[0] == "len" and contains(dl[1], IS_FR) and R == ("int", 0):
+                for dst in (c.true_bb, c.false_bb):
+                    r = b.reachable_from([dst], cut_edges=be, cut_blocks=frozenset([abb]))
+                    if r & set(sets):
+                        gated = True
+    for (sw, term, tb, fb) in guards.bool_switches(b, res):
+        if term[0] == "call" and term[1].endswith("::is_empty") and term[2] and contains(term[2][0], IS_FR):
+            for dst in (tb, fb):
+                r = b.reachable_from([dst], cut_edges=be, cut_blocks=frozenset([abb]))
+                if r & set(sets):
+                    gated = True
+    # (b) the slot counted for unclustered neighbours
+    noise_slot = None
+    for c in cx.cmps:
+        # the arg-max result compared with the noise slot index
+        for (L, R) in ((c.lhs, c.rhs), (c.rhs, c.lhs)):
+            if L[0] == "call" and L[1].endswith(("which_max", "argmax")):
+                noise_slot = R
+    where = b.where(abb)
+    if gated:
+        ck.ok(rule, inst, b.path, where, "an emptiness test of the neighbour list bypasses the vote")
+        return
+    if tie is None or noise_slot is None:
+        ck.note(f"{inst}: tie class of the arg-max helper ({tie}) / noise slot ({noise_slot}) not recognised: not decided")
+        return
+    first_is_noise = noise_slot == ("int", 0)
+    if (tie == "first" and first_is_noise) or (tie == "last" and not first_is_noise and noise_slot[0] == "field"):
+        ck.ok(rule, inst, b.path, where, f"ties resolve to the {tie} slot, which is the noise slot `{render(noise_slot)}`")
+    else:
+        ck.violation(rule, inst, b.path, where,
+                     expected="an all-zero vote table (no training point within eps) resolves to the noise slot, or an emptiness test returns noise",
+                     found=f"the arg-max helper resolves ties to the {tie} index; the noise votes are in slot `{render(noise_slot)}`; with no "
+                           f"neighbour every slot is 0, slot 0 wins and the row is labelled cluster 0 (whenever the model has a cluster)")
+
+
+def run(ck, prog):
+    _run_pre_empty(ck, prog)
+    empty_neighbourhood_is_noise(ck, prog)
+
+
+EXPLANATION += (" Empty neighbourhood: predict returns noise for a row with no training point within eps - an emptiness test of the "
+                "radius query's result bypasses the vote, or the arg-max helper's tie class (first/last, read off the comparison that "
+                "replaces the running maximum) selects the noise slot on an all-zero table.")
